@@ -216,3 +216,40 @@ Section Exec.
     - exists l. rewrite !app_nil_r, map_map. split; auto. apply map_ext. intro x. apply rget_rset_same.
   Qed.
 End Exec.
+
+(* ---------------------------------------------------------------- the term built from the results *)
+(* _materialize_fnml_execution: every result value becomes a term of the position's term type (canonical lexical form and
+   ECHAR escaping for literals, stripped text between angle brackets for IRIs, a label for blank nodes) *)
+Section ExecTerm.
+  Variables (cfg : ecfg) (scfg : scfg) (fe : fenv) (doc : document) (tables : ustr -> stable).
+  Hypothesis Hcfg : cfg_agree cfg scfg.
+  Hypothesis Hna : s_na scfg = c_na cfg.
+  Variables (eid pos : ustr) (tt : ttype) (dt : ustr) (r : row) (sr : srow).
+  Hypothesis Htt : tt = TLit \/ tt = TIri \/ tt = TBnode.
+  Hypothesis Hok : forall e, In e (exec_rows_of (fn_table fe) eid) -> input_ok e.
+  Hypothesis Hfree : forall e, In e (exec_rows_of (fn_table fe) eid) -> fn_free (input_names e).
+  Hypothesis Hval : forall e n, In e (exec_rows_of (fn_table fe) eid) -> In n (input_names e) -> exists x, rget n r = Some x /\ sval scfg sr n = Some x.
+
+  Theorem exec_terms_are_spec_terms :
+    match mat_exec cfg fe eid pos tt dt r with
+    | Ok rs => map (rget pos) rs = map Some (spec_terms scfg fe KExec eid tt dt sr)
+    | Err e => e = EValue \/ e = EUnmodelled \/ spec_eval scfg fe (fnml_fuel (fn_table fe)) eid sr = None
+    end.
+  Proof.
+    unfold mat_exec, spec_terms.
+    pose proof (flat_exec_is_application scfg fe (c_na cfg) eid r sr Hna Hok Hfree Hval (length (fn_table fe)) (length (fn_table fe))) as T.
+    change (S (length (fn_table fe))) with (fnml_fuel (fn_table fe)) in T.
+    destruct (exec_fnml (c_na cfg) (fn_params fe) (fn_apply fe) (fn_table fe) (fnml_fuel (fn_table fe)) eid r) as [rs|e]; cbn [rbind]; [|auto].
+    destruct T as (vals & Es & Ev). rewrite Es. clear Es.
+    destruct Hcfg as [Hp Hs]. unfold clean. rewrite <- Hp.
+    revert vals Ev. induction rs as [|r1 rs IH]; intros [|v vals] Ev; try discriminate; [reflexivity|].
+    cbn [map] in Ev. injection Ev as Ev1 Ev2. cbn [rmap_all flat_map]. rewrite Ev1.
+    specialize (IH vals Ev2).
+    set (v1 := if c_printable cfg then remove_non_printable v else v).
+    destruct Htt as [->|[->| ->]].
+    - unfold canon_ok. destruct (canon dt v1) as [c| |]; [|auto|auto].
+      destruct (rmap_all _ rs) as [rs'|e]; [|destruct IH as [X|[X|X]]; [auto|auto|discriminate]]. cbn [map app]. rewrite rget_rset_same. f_equal. exact IH.
+    - destruct (rmap_all _ rs) as [rs'|e]; [|destruct IH as [X|[X|X]]; [auto|auto|discriminate]]. cbn [map app]. rewrite rget_rset_same. f_equal. exact IH.
+    - destruct (rmap_all _ rs) as [rs'|e]; [|destruct IH as [X|[X|X]]; [auto|auto|discriminate]]. cbn [map app]. rewrite rget_rset_same. f_equal. exact IH.
+  Qed.
+End ExecTerm.
